@@ -52,3 +52,6 @@ Trapz.vos Trapz.vok Trapz.required_vos: Trapz.v PyPrelude.vos
 Multiphase_spec.vo Multiphase_spec.glob Multiphase_spec.v.beautified Multiphase_spec.required_vo: Multiphase_spec.v 
 Multiphase_spec.vio: Multiphase_spec.v 
 Multiphase_spec.vos Multiphase_spec.vok Multiphase_spec.required_vos: Multiphase_spec.v 
+NumpyDtype.vo NumpyDtype.glob NumpyDtype.v.beautified NumpyDtype.required_vo: NumpyDtype.v 
+NumpyDtype.vio: NumpyDtype.v 
+NumpyDtype.vos NumpyDtype.vok NumpyDtype.required_vos: NumpyDtype.v 
